@@ -81,6 +81,9 @@ fn programs(tier: &str, seed: u64) -> Vec<Program> {
         let max_ops = if i % 4 == 0 { 12 } else { 6 };
         out.push(gen_random(&mut rng, max_ops, true));
     }
+    for _ in 0..(if tier == "thorough" { 2000 } else { 400 }) {
+        out.push(gen_private_alias(&mut rng));
+    }
     let n_fus = if tier == "thorough" { 8000 } else { 1500 };
     for i in 0..n_fus {
         out.push(if i % 2 == 0 { gen_fusion_family(&mut rng) } else { gen_fusion_dag(&mut rng) });
